@@ -13,7 +13,7 @@ HOME = pwd.getpwuid(os.geteuid()).pw_dir
 USERS = [p.pw_name for p in pwd.getpwall() if p.pw_name.isalnum() and not p.pw_name.isdigit()][:3] or ['root']
 
 RULE = ('all search-path sequences up to length N over a pool of directories (existing, missing, duplicated, tilde-prefixed, absolute, symlinked, trailing slash, a literal "~nouser" directory) x '
-        'target names placed as regular file / directory / symlink / dangling symlink / absent in those directories x name forms (relative, with sub-directory, absolute, missing absolute, empty, '
+        'target names placed as regular file / directory / symlink / dangling symlink / device node / absent in those directories x name forms (relative, with sub-directory, absolute, missing absolute, empty, '
         '~, ~/x, ~user, ~user/x, ~nouser/x). Oracle: model_fs (first directory in order added holding a regular file; absolute bypass; result = dir "/" name; tilde via the passwd database) '
         'evaluated on the real fixture tree; cfg_parse(name) and include(name) must load the file the model names (distinct marker per file). Runs on ASan+UBSan and MemorySanitizer builds, '
         'a sample under valgrind memcheck. non-trivial: >= 2 directories or a tilde form; distinct = (path sequence, name)')
@@ -40,6 +40,9 @@ def build_fixture(root):
     os.symlink('d3', os.path.join(root, 'lnk'))
     os.symlink('../d2', os.path.join(root, 'd1/t6.conf'))               # symlink to a directory
     f('d3/t6.conf')
+    os.symlink('/dev/null', os.path.join(root, 'd1/t7.conf'))           # neither a regular file nor a directory (a device node, reached through a symlink)
+    os.symlink('/dev/null', os.path.join(root, 'd2/t7.conf'))
+    f('d3/t7.conf')
     return mk
 
 
@@ -88,7 +91,7 @@ def pool(root):
 
 def names(root):
     up = '/..' * (HOME.count('/'))
-    return ['t1.conf', 't2.conf', 't3.conf', 't4.conf', 't5.conf', 't6.conf', 'sub/t.conf', 'nosuch.conf', '', 'sub', './t1.conf', '../d3/t2.conf',
+    return ['t1.conf', 't2.conf', 't3.conf', 't4.conf', 't5.conf', 't6.conf', 't7.conf', '/dev/null', 'sub/t.conf', 'nosuch.conf', '', 'sub', './t1.conf', '../d3/t2.conf',
             root + '/d2/t1.conf', root + '/d2/nosuch.conf', root + '/d2', '/', 'tcwd.conf']
 
 
